@@ -85,6 +85,7 @@ type pathState struct {
 	stubCalls       map[string]int
 	lockEvents      int
 	condWaitHook    value
+	recursionLimit  int
 	condWaits       int
 	fnsCalled       map[*ssa.Function]bool
 	harness         *Harness
